@@ -145,3 +145,18 @@ def dict_from_pairs(I, cell: ListCell):
     ctx.assume(z3.ForAll([k, k2], z3.Implies(z3.And(d.dom[k], d.dom[k2], first(k) < first(k2)), d.pos[k] < d.pos[k2])))
     d.meta = {"pairs": L, "first": first, "last": last}
     return DictCell(d)
+
+
+def install_queue(world):
+    def popleft(I, q):
+        n = q.length()
+        if not I.ctx.decide(n > 0):
+            I.throw(IndexError, "pop from an empty deque")
+        base = z3.simplify(to_z3_int(q.base_len))
+        if z3.is_int_value(base) and base.as_long() == 0 and q.appended:
+            return q.appended.pop(0)
+        if I.ctx.decide(to_z3_int(q.base_len) > 0):
+            q.base_len = to_z3_int(q.base_len) - 1
+            return Opaque("queued PduHolder")
+        return q.appended.pop(0)
+    world.call_stubs["queue_popleft"] = popleft
